@@ -715,6 +715,13 @@ Section Lines.
     rewrite rfinish_prefix. destruct (fold_left (sstep expand tw) t2 ([], [])); reflexivity.
   Qed.
 
+  Theorem newline_ends_line t1 t2 :
+    no_sep t1 = true ->
+    render_spec expand tw (t1 ++ INewline :: t2) = split_nl (text t1) ++ render_spec expand tw t2
+    /\ render_spec expand tw (t1 ++ IBraceWs 10 :: t2) =
+       split_nl (text t1 ++ [123]) ++ render_spec expand tw t2.
+  Proof. intros H. split; [exact (spec_newline t1 t2 H) | exact (spec_brace_newline t1 t2 H)]. Qed.
+
   Lemma split_nl_no_nl x : ~ In 10 x -> split_nl x = [x].
   Proof.
     induction x as [|c r IH]; intros H; cbn [split_nl]; [reflexivity|].
